@@ -200,3 +200,24 @@ where
 {
     f(t)
 }
+
+/// The recorded attempts (expected rules, unexpected rules, number of special errors) of a finished tracker.
+/// Under Kani the BTreeMap is cut (T1) and the single slot holds them; in a native replay the real map does.
+#[cfg(kani)]
+pub fn attempts_of(
+    _map: &std::collections::BTreeMap<Option<crate::common::R>, (Vec<crate::common::R>, Vec<crate::common::R>, Vec<SpecialError>)>,
+) -> (Vec<crate::common::R>, Vec<crate::common::R>, usize) {
+    unsafe { (T1_SLOT.0.clone(), T1_SLOT.1.clone(), T1_SLOT.2.len()) }
+}
+#[cfg(not(kani))]
+pub fn attempts_of(
+    map: &std::collections::BTreeMap<Option<crate::common::R>, (Vec<crate::common::R>, Vec<crate::common::R>, Vec<SpecialError>)>,
+) -> (Vec<crate::common::R>, Vec<crate::common::R>, usize) {
+    let (mut p, mut n, mut k) = (vec![], vec![], 0);
+    for (_, (a, b, c)) in map.iter() {
+        p.extend(a.iter().cloned());
+        n.extend(b.iter().cloned());
+        k += c.len();
+    }
+    (p, n, k)
+}
